@@ -18,6 +18,7 @@ replays exactly.
             per-call override, if any, is case["method"])
     jpeg / jpeg_sub / jpeg_cls  iterm2 jpeg_quality set on the instance / on a fresh subclass the instance
             is made from / on ITerm2Image itself (absent = left unset); "sub": true alone = subclass, nothing set
+    bel     true: the terminal terminates its colour (OSC 10/11) replies with BEL instead of ST
     pil_at  (pilfile / pilmem only) frame the PIL image is left positioned on before the image object is built
     kind  "pil"      PIL image built in memory (no file behind it)
           "file"     <Style>Image.from_file(path)
@@ -244,6 +245,8 @@ def build(case, w=None, h=None):
         kw["bg"] = case["termbg"].encode() if case["termbg"] else None
     cell = tuple(case["cell"]) if case.get("cell") else None
     world.setup(case["identity"], *(case.get("term") or TERM), cell=cell, **kw)
+    if case.get("bel"):       # the terminal ends its OSC colour replies with BEL instead of ST (both are legal)
+        world.W.tty.responder.st = b"\x07"
     cls = imgkit.style_class(case["style"])
     if case["style"] == "iterm2":
         if case.get("jpeg_cls") is not None:
